@@ -366,6 +366,7 @@ def base_axioms():
     ax.append(z3.ForAll([a, b], z3.Implies(sofint(a) == sofint(b), a == b),
                         patterns=[z3.MultiPattern(sofint(a), sofint(b))]))
     ax.extend(lit_axioms())
+    ax.extend(list_axioms())
     return ax
 
 
@@ -494,3 +495,38 @@ class TSeq(Shape):
 
     def sort(self):
         return z3.SeqSort(self.elem.sort())
+
+
+def list_axioms():
+    """defining axioms of the list function symbols that have been created so far."""
+    out = []
+    for (name, key), f in _list_fns.items():
+        sh = _list_shapes[key]
+        l = z3.Const('l!la', sh.sort())
+        m = z3.Const('m!la', sh.sort())
+        a, b, j = z3.Ints('a!la b!la j!la')
+        if name == 'lslice':
+            r = f(l, a, b)
+            ok = z3.And(0 <= a, a <= b, b <= sh.len(l))
+            out.append(z3.ForAll([l, a, b], z3.Implies(ok, sh.len(r) == b - a), patterns=[f(l, a, b)]))
+            out.append(z3.ForAll([l, a, b, j], z3.Implies(z3.And(ok, 0 <= j, j < b - a),
+                                                         z3.Select(sh.arr(r), j) == z3.Select(sh.arr(l), a + j)),
+                                 patterns=[z3.Select(sh.arr(r), j)]))
+        elif name == 'lcat':
+            r = f(l, m)
+            ok = z3.And(sh.len(l) >= 0, sh.len(m) >= 0)
+            out.append(z3.ForAll([l, m], z3.Implies(ok, sh.len(r) == sh.len(l) + sh.len(m)), patterns=[f(l, m)]))
+            out.append(z3.ForAll([l, m, j], z3.Implies(z3.And(ok, 0 <= j, j < sh.len(l) + sh.len(m)),
+                                                      z3.Select(sh.arr(r), j) == z3.If(j < sh.len(l), z3.Select(sh.arr(l), j),
+                                                                                       z3.Select(sh.arr(m), j - sh.len(l)))),
+                                 patterns=[z3.Select(sh.arr(r), j)]))
+    return out
+
+
+_list_shapes = {}
+_orig_list_fn = list_fn
+
+
+def list_fn(name, list_shape, extra_sorts):   # noqa: F811
+    _list_shapes[list_shape.key()] = list_shape
+    return _orig_list_fn(name, list_shape, extra_sorts)
